@@ -58,7 +58,7 @@ func CompileDet(args common.Args, out *common.Out) error {
 	var jobs []job
 	for _, f := range fields {
 		for _, ci := range circuits.CorpusList {
-			if only != "" && ci.Name != only {
+			if ci.Gkr || (only != "" && ci.Name != only) {
 				continue
 			}
 			if _, small := SmallFields[f]; small && !ci.Small {
